@@ -177,6 +177,10 @@ Definition apply_ops_direct (ops:list op) (S:schema) : schema := fold_left (fun 
 Definition strip_edge_quotes (s:list N) : list N :=
   let s1 := match s with x :: r => if N.eqb x 39 then r else s | [] => [] end in
   if N.eqb (last s1 0%N) 39 then removelast s1 else s1.
+(* rendered with the SQLite migration context, an unparenthesised SQL expression default is also wrapped in parentheses
+   (SQLiteImpl.render_ddl_sql_expr); SQLite stores and reflects both spellings alike (autogen_column_reflect adds the same
+   parentheses), so the post-state is the same and the wrapping is not transcribed; the harness renders with the context and the
+   correspondence compares the post-states *)
 Definition render_default (d:dflt) : dflt := match d with DLit s => DLit (strip_edge_quotes s) | _ => d end.
 Definition render_col (c:col) : col :=
   mkCol (c_name c) (c_ty c) (c_null c) (c_pk c) (option_map render_default (c_default c)) (c_null_set c).
